@@ -229,6 +229,11 @@ func c11Scenarios(r *verdict.Run, race bool) {
 		for _, leave := range []string{"unblock+unblock", "timeout+close", "close+unblock", "kill+timeout"} {
 			all = append(all, scn{kind: "j:middle-then-last-waiter-leave", form: f, consumer: []string{leave}})
 		}
+		for _, leave := range []string{"unblock", "timeout", "kill", "close"} {
+			for rep := 0; rep < 3; rep++ { // the outcome of the race inside the waiter is random: three attempts each
+				all = append(all, scn{kind: "l:signalled-head-ends-otherwise", form: f, consumer: []string{leave, strconv.Itoa(rep)}})
+			}
+		}
 		if f.multi {
 			all = append(all, scn{kind: "f:multi-key-woken-once", form: f, multi: true})
 			all = append(all, scn{kind: "d:stolen-after-wake", form: f, multi: true, consumer: consumers[0]})
@@ -484,6 +489,80 @@ func c11Scenarios(r *verdict.Run, race bool) {
 			note(w1)
 			if len(elements(w1.reply)) != 1 || len(elements(w2.reply)) != 1 {
 				s.r.Report("sched/lost-wakeup/second-push/wrong-reply/"+sc.form.name, fmt.Sprintf("%s: replies %s and %s (each waiter must get one element)", s.name, w1.reply, w2.reply), s.rep())
+			}
+		case 'l':
+			// A (head of the queue) is held just before its wait; B blocks behind it. A push wakes A (it is taken out of the
+			// queue and handed the wake-up) and at the same moment A's block ends for another reason (CLIENT UNBLOCK, its
+			// timeout, CLIENT KILL, its connection closing). When A is let go it either takes the element - fine - or ends
+			// without it: then the element belongs to B. What must not happen: the element stays in the list while B
+			// keeps waiting for it.
+			wB, err := newWaiter(e)
+			if err != nil {
+				return
+			}
+			defer wB.cn.Close()
+			leave := sc.consumer[0]
+			cmdA := cmd
+			if leave == "timeout" {
+				cmdA = sc.form.args(keys, "0.05")
+			}
+			tok, parked := s.parkAt(w1, "blk:before-wait", cmdA)
+			if !parked {
+				r.Inconclusive("hook point blk:before-wait not reached")
+				return
+			}
+			from := c.EventCount()
+			c.Ctl("watch blk:before-wait")
+			wB.issue(cmd, 30*time.Second)
+			s.logf("client %d: %s", wB.id, cmdString(cmd))
+			if _, _, f := c.WaitEvent(from, func(ev host.Event) bool { return ev.Kind == "hit" && ev.Point == "blk:before-wait" && ev.ID == wB.id }, 5*time.Second); !f {
+				r.Inconclusive("second waiter did not reach blk:before-wait")
+				return
+			}
+			time.Sleep(5 * time.Millisecond)
+			push("q", "el-1")
+			switch leave {
+			case "unblock":
+				s.do("CLIENT", "UNBLOCK", strconv.FormatInt(w1.id, 10))
+			case "timeout":
+				time.Sleep(80 * time.Millisecond) // its 50 ms are over
+			case "kill":
+				s.do("CLIENT", "KILL", "ID", strconv.FormatInt(w1.id, 10))
+				time.Sleep(20 * time.Millisecond)
+			case "close":
+				w1.cn.Close()
+				time.Sleep(150 * time.Millisecond)
+			}
+			s.release(tok)
+			w1.finished(3 * time.Second)
+			got1 := len(elements(w1.reply)) == 1 && w1.err == nil
+			if moves && w1.err == nil && !w1.reply.Null && w1.reply.Kind == '$' {
+				got1 = true
+			}
+			s.logf("client %d (woken and ended by %s at the same moment): reply %s err %v", w1.id, leave, w1.reply, w1.err)
+			time.Sleep(c11Settle)
+			ll := s.do("LLEN", "q")
+			if ll.Int > 0 && !wB.finished(10*time.Millisecond) {
+				r.Report("sched/lost-wakeup/wake-up-spent-on-a-client-that-ended-otherwise/"+sc.form.name+"/"+leave,
+					fmt.Sprintf("%s: the head waiter was woken by the push and ended by %s without taking the element (its reply: %s %v); LLEN q = %s and the second waiter is still blocked", s.name, leave, w1.reply, w1.err, ll), s.rep())
+				ok = false
+				break
+			}
+			r.Distinct(fmt.Sprintf("schedule/%s/head-took-the-element=%v", s.name, got1))
+			if wB.finished(10 * time.Millisecond) {
+				note(wB)
+				if got1 || leave == "kill" || leave == "close" {
+					// (a killed or closed head may have taken the element with it into a reply nobody reads: conservation
+					// is checked below only where every reply can be read)
+				}
+			} else {
+				// the head took it: B is served by the next push
+				push("q", "el-2")
+				ok = s.expectServed(wB, "el-2", "sched/lost-wakeup/second-waiter-not-served/"+sc.form.name)
+				note(wB)
+			}
+			if got1 {
+				note(w1)
 			}
 		case 'h':
 			// A (oldest) and B block on q; B - the newest entry of the wait queue - leaves without being served (timeout,
@@ -1069,11 +1148,12 @@ func c11Stress(r *verdict.Run, runs int, race bool) {
 }
 
 func checkC11(r *verdict.Run) {
-	r.Rule = "(1) hook-driven schedules for each of BLPOP/BRPOP/BLMOVE/BRPOPLPUSH/BLMPOP (single and multi-key): a push landing before registration / after registration / between capture and wait; a woken waiter parked before its retry while LPOP/RPOP/LMOVE/DEL/LTRIM/RENAME/LPOP n/LMPOP takes the element, then a second push (must be served); three waiters in confirmed registration order with one push and with a two-element push; a multi-key waiter served through one key then a push to its other key; " +
-		"oracles: served within 3 s (violation only if a canary shows the emulator responsive), stays blocked for 400 ms, exactly-once conservation, longest waiter first. (2) random stress with yields inside the block/wake loop: unique ids, conservation, no list left non-empty while blocking consumers run, left-end order per producer; every other stress run blocks without timeouts (a finite timeout heals a lost wake-up) and reports consumers that stay blocked on a non-empty list; (3) bursts: k clients block once on a fresh list, then k separate pushes (RPUSH/LPUSH/RPUSHX/LPUSHX/LMOVE/RPOPLPUSH) arrive in one write or one MULTI/EXEC: every waiter must complete while elements remain. distinct = schedules + stress configurations + burst shapes"
+	r.Rule = "(1) hook-driven schedules for each of BLPOP/BRPOP/BLMOVE/BRPOPLPUSH/BLMPOP (single and multi-key): a push landing before registration / after registration / between capture and wait; a woken waiter parked before its retry while LPOP/RPOP/LMOVE/DEL/LTRIM/RENAME/LPOP n/LMPOP takes the element, then a second push (must be served); three waiters in confirmed registration order with one push and with a two-element push; a multi-key waiter served through one key then a push to its other key; the head waiter woken by a push and ended by CLIENT UNBLOCK / its timeout / CLIENT KILL / a closed connection at the same moment with a second waiter behind it (the element must reach the second waiter); " +
+		"oracles: served within 3 s (violation only if a canary shows the emulator responsive), stays blocked for 400 ms, exactly-once conservation, longest waiter first. (2) random stress with yields inside the block/wake loop: unique ids, conservation, no list left non-empty while blocking consumers run, left-end order per producer; every other stress run blocks without timeouts (a finite timeout heals a lost wake-up) and reports consumers that stay blocked on a non-empty list; (3) bursts: k clients block once on a fresh list, then k separate pushes (RPUSH/LPUSH/RPUSHX/LPUSHX/LMOVE/RPOPLPUSH) arrive in one write or one MULTI/EXEC: every waiter must complete while elements remain; (4) rounds: 2-6 consumers loop on BLPOP/BRPOP q 0 (no timeout) while a producer sends as many single-element pushes as there are consumers in one write and waits for all of them to be consumed before the next round (consumers register, re-check and wake at every relative position to the pushes): no round may end with an element in the list and a consumer blocked on it. distinct = schedules + stress configurations + burst shapes"
 	c11Scenarios(r, false)
 	c11Stress(r, tierPick(r, 16, 300), false)
 	c11Bursts(r, tierPick(r, 16, 200))
+	c11Rounds(r, tierPick(r, 8, 64), tierPick(r, 1500, 6000))
 	if r.Tier == "thorough" {
 		c11Scenarios(r, true)
 		c11Stress(r, 16, true)
@@ -1225,5 +1305,108 @@ func c11Bursts(r *verdict.Run, runs int) {
 				w.cn.Close()
 			}
 		}
+	})
+}
+
+// c11Rounds: k consumers loop on a blocking pop without a timeout; per round the producer sends k single-element pushes
+// in ONE write and then waits until all k elements have been consumed. The consumers are at every stage of their
+// command when the pushes land (sending the next BLPOP, first attempt, registering, re-check, parked, just woken), round
+// after round. A wake-up that is spent on a consumer that does not take an element for it leaves an element in the
+// list with a consumer blocked on it: the round never completes.
+func c11Rounds(r *verdict.Run, runs, rounds int) {
+	parallel(runs, 8, func(run int) {
+		c, err := startChild(false)
+		if err != nil {
+			r.Inconclusive("cannot start child")
+			return
+		}
+		defer c.Stop()
+		e, err := startEmu(c, "")
+		if err != nil {
+			r.Inconclusive("infra: " + err.Error())
+			return
+		}
+		k := 2 + run%5
+		pop := []string{"BLPOP", "BRPOP"}[run%2]
+		var consumed atomic.Int64
+		var stop atomic.Bool
+		var wg sync.WaitGroup
+		var conns []*wire.Conn
+		for i := 0; i < k; i++ {
+			cn, err := e.dial()
+			if err != nil {
+				return
+			}
+			conns = append(conns, cn)
+			wg.Add(1)
+			go func(cn *wire.Conn) {
+				defer wg.Done()
+				for !stop.Load() {
+					if err := cn.SendCmd(pop, "rq", "0"); err != nil {
+						return
+					}
+					v, _, err := cn.ReadValue(time.Hour)
+					if err != nil {
+						return
+					}
+					if len(elements(v)) == 1 {
+						consumed.Add(1)
+					}
+				}
+			}(cn)
+		}
+		prod, err := e.dial()
+		if err != nil {
+			return
+		}
+		defer prod.Close()
+		prod.Timeout = 10 * time.Second
+		completed := 0
+		for round := 0; round < rounds; round++ {
+			var b []byte
+			for j := 0; j < k; j++ {
+				b = append(b, resp.Cmd("RPUSH", "rq", fmt.Sprintf("el-%d-%d", round, j))...)
+			}
+			prod.Send(b)
+			for j := 0; j < k; j++ {
+				if _, _, err := prod.ReadValue(10 * time.Second); err != nil {
+					r.Inconclusive("rounds: producer got no reply: " + err.Error())
+					round = rounds
+					break
+				}
+			}
+			want := int64((round + 1) * k)
+			if run%4 >= 2 && round < rounds-1 {
+				// these runs let the producer run one round ahead of the consumers
+				want -= int64(k)
+			}
+			deadline := time.Now().Add(4 * time.Second)
+			for consumed.Load() < want && time.Now().Before(deadline) {
+				time.Sleep(50 * time.Microsecond)
+			}
+			r.Eval(1)
+			if consumed.Load() < want {
+				// not complete after 4 s: is an element waiting while a consumer is blocked on the list?
+				ll, _ := prod.Do("LLEN", "rq")
+				nb, cl := c11Blocked(prod)
+				time.Sleep(500 * time.Millisecond)
+				ll2, _ := prod.Do("LLEN", "rq")
+				if ll.Int > 0 && ll2.Int == ll.Int && nb > 0 {
+					r.Report("rounds/lost-wakeup/"+pop, fmt.Sprintf("round %d with %d consumers looping on %s rq 0: %d of %d elements were consumed, LLEN rq = %d (unchanged 500 ms later) while %d clients are blocked - a pushed element waits in the list and nobody is woken for it", round, k, pop, consumed.Load()-int64(round*k), k, ll.Int, nb),
+						map[string]any{"round": round, "consumers": k, "client_list": cl})
+				} else {
+					r.Inconclusive(fmt.Sprintf("rounds: round %d incomplete after 4 s but no element is waiting (LLEN %s, %d blocked)", round, ll, nb))
+				}
+				break
+			}
+			completed++
+		}
+		stop.Store(true)
+		for _, cn := range conns {
+			cn.Close()
+		}
+		wg.Wait()
+		r.Count("rounds_completed", int64(completed))
+		r.Distinct(fmt.Sprintf("rounds/%s/%d-consumers", pop, k))
 	})
 }
